@@ -925,6 +925,36 @@ fn same_slices(got: &[IoSlice<'_>], want: &[&[u8]], si: usize, what: &str) -> Re
 
 /// Runs a history.  Process-global state (chunk registry, counters) is
 /// used: call from a single-threaded worker only.
+/// Runs `f` while another object of the process holds `mib` MiB of (untouched) arena memory:
+/// what the rest of the process keeps alive must not matter to the objects under test.
+pub fn with_ballast<T>(mib: usize, f: impl FnOnce() -> T) -> T {
+    let mut ballast = ByteArena::new();
+    ballast.ensure_capacity(mib << 20);
+    let r = f();
+    drop(ballast);
+    r
+}
+
+/// The ballast the `*-with-ballast` groups run under (and their replays): just above 64 MiB... and then some.
+pub const BALLAST_MIB: usize = 96;
+
+/// `check(case)` under the groups' ballast (used by replays; the groups themselves hold one
+/// ballast for all their cases, since reserving it costs milliseconds).
+pub fn check_with_ballast<C>(case: &C, check: impl FnOnce(&C) -> crate::engine::CaseResult) -> crate::engine::CaseResult {
+    with_ballast(BALLAST_MIB, || check(case))
+}
+
+/// Holds `mib` MiB of arena memory until dropped.
+pub struct Ballast(#[allow(dead_code)] ByteArena);
+
+impl Ballast {
+    pub fn new(mib: usize) -> Ballast {
+        let mut arena = ByteArena::new();
+        arena.ensure_capacity(mib << 20);
+        Ballast(arena)
+    }
+}
+
 thread_local! {
     static HANDOFF: std::cell::Cell<bool> = const { std::cell::Cell::new(false) };
 }
